@@ -328,7 +328,12 @@ class BaseObserver(EventDispatcher):
             if watch not in self._emitter_for_watch:
                 emitter = self._emitter_class(self.event_queue, watch, timeout=self.timeout, event_filter=event_filter)
                 if self.is_alive() and self.should_keep_running():
-                    emitter.start()
+                    try:
+                        emitter.start()
+                    except Exception:
+                        # Like start() does: release what the emitter has set up so far.
+                        emitter.stop()
+                        raise
                 self._add_emitter(emitter)
             # Register the handler only once the emitter exists: a schedule() that raises must leave no trace.
             self._add_handler_for_watch(event_handler, watch)
